@@ -250,7 +250,7 @@ def thm_chord(lat1: "real", lon1: "real", lat2: "real", lon2: "real"):
 @bounded(P, "roundtrips-iteration-and-poslos", "every ellipsoid of ellipsoidmodels x random positions (|lat| <= 88, any longitude, heights -10 km .. "
          "1000 km; scalars and arrays): geodetic -> cartesian -> geodetic and geodetic -> geocentric -> geodetic to 1 cm / 1e-7 deg, direct "
          "and composed routes agree; geocentricposlos2cart -> cartposlos2geocentric returns position, zenith and azimuth angle (zenith "
-         "1..179 deg, also |lat| near 90, za near 0 / 180 with the optional arguments); 300 (quick) / 3000 (thorough) cases")
+         "1..179 deg, azimuth random or exactly 0 / +-180 / +-90, also |lat| near 90, za near 0 / 180 with the optional arguments); 300 (quick) / 3000 (thorough) cases")
 def bounded_roundtrips(rng, tier):
     import warnings
     rounds = 300 if tier == "quick" else 3000
@@ -282,13 +282,30 @@ def bounded_roundtrips(rng, tier):
                     problems.append("geodetic -> geocentric -> geodetic gives %r %r" % (float(h3[0]), float(lat3[0])))
                 # position + line of sight
                 za, aa = rng.uniform(1, 179), rng.uniform(-179.9, 179.9)
+                aa_tol = 1e-6
+                if rng.random() < 0.4:
+                    # lines of sight exactly along a meridian or a parallel: arccos at +-1 (its rounding branch); the
+                    # arccos there is conditioned like sqrt(eps), hence the wider tolerance
+                    aa, aa_tol = rng.choice([0.0, 180.0, -180.0, 90.0, -90.0]), 1e-3
                 r0 = float(rc[0])
                 px, py, pz, dx, dy, dz = G.geocentricposlos2cart(r0, float(latc[0]), float(lonc[0]), za, aa)
                 r4, lat4, lon4, za4, aa4 = G.cartposlos2geocentric(px, py, pz, dx, dy, dz)
                 r4, lat4, lon4, za4, aa4 = [float(_np.ravel(v)[0]) for v in (r4, lat4, lon4, za4, aa4)]
                 if abs(r4 - r0) > 0.01 or abs(lat4 - float(latc[0])) > 1e-7 or abs(za4 - za) > 1e-6 \
-                        or abs(((aa4 - aa + 180) % 360) - 180) > 1e-6:
+                        or abs(((aa4 - aa + 180) % 360) - 180) > aa_tol:
                     problems.append("poslos round trip: za %r -> %r, aa %r -> %r, r %r -> %r" % (za, za4, aa, aa4, r0, r4))
+                if r % 5 == 0:
+                    # array arguments (all elements away from the singular cases), incl. meridian azimuths next to others
+                    k = rng.randint(2, 5)
+                    lats = _np.array([rng.uniform(-88, 88) for _ in range(k)])
+                    lons = _np.array([rng.uniform(-180, 180) for _ in range(k)])
+                    zas = _np.array([rng.uniform(1, 179) for _ in range(k)])
+                    aas = _np.array([rng.choice([0.0, 180.0, 90.0, rng.uniform(-179.9, 179.9), rng.uniform(-179.9, 179.9)]) for _ in range(k)])
+                    rs = _np.full(k, r0)
+                    out = G.cartposlos2geocentric(*G.geocentricposlos2cart(rs, lats, lons, zas, aas))
+                    if any(_np.shape(v) != (k,) for v in out) or _np.any(_np.abs(out[3] - zas) > 1e-6) \
+                            or _np.any(_np.abs(((out[4] - aas + 180) % 360) - 180) > 1e-3) or _np.any(_np.abs(out[1] - lats) > 1e-7):
+                        problems.append("poslos round trip on arrays: za %r -> %r, aa %r -> %r" % (zas.tolist(), out[3].tolist(), aas.tolist(), out[4].tolist()))
         except Exception as exc:
             problems.append("exception %r" % (exc,))
         if problems:
